@@ -55,11 +55,11 @@ def cname(c):
         .replace('of_galois_field_2_4_', 'GF_').replace('of_galois_field_2_8_', 'GF_')
 
 
-def signature(f, pshift=0, prog=None, subst=None, depth=0):
+def signature(f, pshift=0, prog=None, subst=None, depth=0, forward=True):
     """Counter of normalised semantic events of f.  Static helpers of the same unit are expanded in place (their parameters
     replaced by the argument terms), so that extracting a few lines into a helper -- or inlining one -- is not a difference.
     Phi nodes are named by their structure (normalised incoming values), not by position."""
-    tt = Terms(f)
+    tt = Terms(f, forward=forward)
 
     def norm(t, d=0):
         if not isinstance(t, tuple):
@@ -100,6 +100,26 @@ def signature(f, pshift=0, prog=None, subst=None, depth=0):
             return ('phi', tuple(sorted(leaves)))
         if k == 'call':
             return ('call', cname(t[1]))
+        if k == 'bin' and t[1] in ('add', 'sub'):
+            # integer sums are compared as linear forms: (k-1) - (i-1) is k - i
+            def lin(x, sg, acc):
+                if isinstance(x, tuple) and x[0] == 'bin' and x[1] in ('add', 'sub'):
+                    lin(x[2], sg, acc)
+                    lin(x[3], sg if x[1] == 'add' else -sg, acc)
+                elif isinstance(x, tuple) and x[0] == 'const':
+                    acc[None] = acc.get(None, 0) + sg * x[1]
+                elif isinstance(x, tuple) and x[0] == 'trunc':
+                    lin(x[2], sg, acc)
+                else:
+                    key = norm(x, d)
+                    acc[key] = acc.get(key, 0) + sg
+            acc = {}
+            lin(t, 1, acc)
+            c0 = acc.pop(None, 0)
+            items = sorted(((repr(k2), v) for k2, v in acc.items() if v), key=lambda kv: kv[0])
+            if c0 == 0 and len(items) == 1 and items[0][1] == 1:
+                return [k2 for k2, v in acc.items() if v][0]
+            return ('lin', c0, tuple(items))
         if k == 'cmp':
             a, b = norm(t[2], d), norm(t[3], d)
             p = t[1]
@@ -126,7 +146,7 @@ def signature(f, pshift=0, prog=None, subst=None, depth=0):
                 if g is not None and g.internal and g.unit is f.unit and depth < 2 and i.callee not in SIBLING_NAMES and \
                         i.callee not in CMAP:
                     # a static helper of this unit: its events happen here
-                    sub, w2 = signature(g, 0, prog, [norm(tt.term(a)) for a in i.args], depth + 1)
+                    sub, w2 = signature(g, 0, prog, [norm(tt.term(a)) for a in i.args], depth + 1, forward)
                     for t2, n2 in sub.items():
                         if t2[0] == 'ret':
                             continue
@@ -166,6 +186,17 @@ def r_siblings(ctx, prog, scopes):
             ctx.need(f is not None, R, 'sibling %s of group %s not found' % (name, gname))
             s, w = signature(f, shift, prog)
             sigs.append((name, f, s, w))
+        if any(a[2] != sigs[0][2] for a in sigs):
+            # two views of memory: with loads forwarded from the dominating store (a value re-read right after it was stored is
+            # that value) and without (robust when a copy's stores moved to other blocks); a real disagreement shows in both
+            alt = []
+            for name, unit, shift in members:
+                f = prog.fn(name, unit)
+                s, w = signature(f, shift, prog, forward=False)
+                alt.append((name, f, s, w))
+            if sum(1 for a in alt if a[2] != alt[0][2]) < sum(1 for a in sigs if a[2] != sigs[0][2]) or \
+                    all(a[2] == alt[0][2] for a in alt):
+                sigs = alt
         n += 1
         ref = None
         if len(sigs) >= 3:
